@@ -14,7 +14,7 @@ import Thanos.Generated.Facts
   (the Recv after k delivered frames fails), `hang k` (… never returns; the frame timeout cancels it).
 
   The theorems hold for every `merge` that neither loses nor invents responses (`MergeMem`) — all
-  they need of the loser tree — for any number of stores, any subset failing at any point, lazy and
+  they need of the loser tree, which has it (`losertree_refines`, Props/C03; `C06_*_tree` below) — for any number of stores, any subset failing at any point, lazy and
   eager retrieval, any batch size, with and without deduplication, sharded or not.  `Limit = 0`
   (a limit may legitimately cut the stream before the failure is seen).
 -/
@@ -177,6 +177,22 @@ theorem C06_warn_complete (merge : List (List Frame) → List Frame) (hm : Merge
     apply this.mpr
     simp only [List.mem_flatMap]
     exact ⟨s, hsf, hc⟩
+
+/-! ### the same for the merge the proxy really uses (`losertree_refines`, Props/C03) -/
+
+theorem C06_abort_tree (rq : Request) (stores : List Store) (hab : rq.abort = true) (hlim : rq.limit = 0)
+    (st : Store) (hst : st ∈ stores)
+    (hfail : st.openErr = true ∨ (FailsInStream st ∧ failureMsg st ≠ [])) :
+    (proxySeries rq stores).2 ≠ .ok :=
+  C06_abort treeMerge (mergeMem_of_spec losertree_refines) rq stores hab hlim st hst hfail
+
+theorem C06_warn_tree (rq : Request) (stores : List Store) (hab : rq.abort = false) (hlim : rq.limit = 0)
+    (st : Store) (hst : st ∈ stores) :
+    (proxySeries rq stores).2 = .ok ∧
+    (st.openErr = true → .warning st.openMsg ∈ (proxySeries rq stores).1) ∧
+    (st.openErr = false → FailsInStream st → .warning (failureMsg st) ∈ (proxySeries rq stores).1) :=
+  ⟨C06_warn_ok treeMerge rq stores hab hlim,
+   C06_warn_reported treeMerge (mergeMem_of_spec losertree_refines) rq stores hab hlim st hst⟩
 
 /-! ### regenerated facts: the strategy tests in the sources -/
 
